@@ -88,3 +88,11 @@ pub(crate) fn any_clock_quality() -> ClockQuality {
         offset_scaled_log_variance: kani::any(),
     }
 }
+
+/// Stub for `log::max_level()`: the value the `log` crate has when no logger raised it (Off).
+/// Kani models the atomic load behind it as arbitrary, which would drag every `{:?}` / `{}` formatter
+/// of the log statements (128-bit decimal conversion of fixed-point numbers) into each formula.
+/// Assumption recorded in the evidence: formatting code of log statements is not verified.
+pub(crate) fn stub_log_off() -> log::LevelFilter {
+    log::LevelFilter::Off
+}
